@@ -198,6 +198,15 @@ package types
 //@   && (a.Type == "MODULE_ACCOUNT" ==> moduleExists(a.Id) && a.Id != "distributor_main_account")
 //@   && (a.Type == "BASE_ACCOUNT" ==> bech32ok(a.Id) && fromBech32(a.Id) != modaddr("distributor_main_account"))
 //@   && (a.Type == "INTERNAL_ACCOUNT" ==> a.Id != "")
+//@ // the store key of a destination's state: type AND id (accounts of different types may share an id: C04), so that two
+//@ // destinations never write to the same stored state
+//@ func (account Account) GetAccountKey() (r)
+//@   ensures r == account.Type + "-" + account.Id
+//@   prop C04 C03 C12
+//@ func (state State) GetStateKey() (r)
+//@   ensures state.Account != nil && state.Account.Id != "" && state.Account.Type != "" ==> r == state.Account.Type + "-" + state.Account.Id
+//@   ensures !(state.Account != nil && state.Account.Id != "" && state.Account.Type != "") ==> r == "burn_state_key"
+//@   prop C04 C03 C12
 //@ func (account Account) Validate() (err)
 //@   ensures (err == nil) == accountValidated(account)
 //@   prop C13 C20 C03 C10 C14 C04
